@@ -19,14 +19,24 @@ func runC18(c *Check) error {
 	// maxL = 0: all 64-bit sizes (witnesses cannot be allocated natively, so no replay);
 	// maxL = 2048: the same harness restricted to sizes the native replayer can build,
 	// every witness replayed (validates the engine's treatment of the same code).
+	var proof []*interp.Job
 	for _, maxL := range []int{0, 2048} {
 		for _, e := range []string{"H_C18_TokStep", "H_C18_PosStep"} {
 			for g := 0; g <= 2; g++ {
-				c.ExploreNeed(&interp.Job{Entry: e, Tag: "step", NoReplay: maxL == 0, Params: map[string]interface{}{"ghost": g, "maxL": maxL}}, "after-get")
+				j := &interp.Job{Entry: e, Tag: "step", NoReplay: maxL == 0, Params: map[string]interface{}{"ghost": g, "maxL": maxL}}
+				c.ExploreNeed(j, "after-get")
+				if maxL == 0 {
+					proof = append(proof, j)
+				}
 			}
 		}
-		c.ExploreNeed(&interp.Job{Entry: "H_C18_Base", Tag: "base", NoReplay: maxL == 0, Params: map[string]interface{}{"maxL": maxL}}, "base")
+		j := &interp.Job{Entry: "H_C18_Base", Tag: "base", NoReplay: maxL == 0, Params: map[string]interface{}{"maxL": maxL}}
+		c.ExploreNeed(j, "base")
+		if maxL == 0 {
+			proof = append(proof, j)
+		}
 	}
+	c.CrossSolvers(proof)
 	c.ExploreNeed(&interp.Job{Entry: "H_C18_Sizes", Tag: "sizes", Params: map[string]interface{}{}}, "sizes")
 	Ls := []int{1, 2, 3}
 	if c.Tier == "thorough" {
